@@ -8,4 +8,6 @@ INVARIANT SpanningWhenDefault
 INVARIANT DoneCount
 INVARIANT Corridor
 INVARIANT MetaTruth
+INVARIANT MeasureNat
+PROPERTY Terminates
 CHECK_DEADLOCK FALSE
